@@ -1,0 +1,28 @@
+//! C19 adapter, noise part: the prost-generated decoder of the handshake payload.
+
+use super::handshake_schema;
+use crate::verif::hexd;
+
+use prost::Message;
+
+fn opt(b: &Option<Vec<u8>>) -> String {
+    b.as_ref().map(|b| hexd(b)).unwrap_or_else(|| "none".into())
+}
+
+/// Canonical dump of `handshake_schema::NoiseHandshakePayload::decode`.
+pub(crate) fn pb(bytes: &[u8]) -> String {
+    match handshake_schema::NoiseHandshakePayload::decode(bytes) {
+        Err(_) => "err".into(),
+        Ok(m) => {
+            let ext = match &m.extensions {
+                None => "none".to_string(),
+                Some(e) => {
+                    let c: Vec<String> = e.webtransport_certhashes.iter().map(|b| hexd(b)).collect();
+                    let s: Vec<String> = e.stream_muxers.iter().map(|b| hexd(b.as_bytes())).collect();
+                    format!("{{ch=[{}],sm=[{}]}}", c.join(";"), s.join(";"))
+                }
+            };
+            format!("ok key={} sig={} ext={}", opt(&m.identity_key), opt(&m.identity_sig), ext)
+        }
+    }
+}
